@@ -223,7 +223,7 @@ pub fn run(tier: Tier, seed: u64) -> i32 {
     rep.add(reg);
     if !rep.failed() {
         let gc = gen_cfg();
-        rep.add(run::run_random("random_histories_all_crash_points", seed, tier.pick(1500, 30000), "crash", move || run::boxed(gen::case_strategy(gc.clone())), |c: &Case| eval(c)));
+        rep.add(run::run_random("random_histories_all_crash_points", seed, tier.pick(6000, 40000), "crash", move || run::boxed(gen::case_strategy(gc.clone())), |c: &Case| eval(c)));
     }
     rep.finish()
 }
